@@ -824,17 +824,96 @@ func checkC14(c *Ctx, r *Report) {
 		locked := false
 		for _, ci := range allCalls(fn) {
 			if strings.HasSuffix(callName(ci.Common()), ".lock.Lock") && strings.HasSuffix(pathOf(ci.Common().Args[0]), ".flushLock") {
+				// on the BUFFER arm, and under no further condition on the message (the value a BUFFER
+				// report carries may be a stale 0 that crossed the data frame on the link)
+				onArm, extra := false, false
 				for _, cd := range condsAt(ci.Block()) {
 					if bo, ok := cd.V.(*ssa.BinOp); ok && bo.Op == token.EQL && cd.Truth {
 						if s, _ := constString(bo.Y); s == "BUFFER" {
-							locked = true
+							onArm = true
+							continue
 						}
 					}
+					if dependsOn(cd.V, func(x ssa.Value) bool {
+						call, ok := x.(*ssa.Call)
+						return ok && (strings.HasSuffix(callName(&call.Call), ".ctrlMsg.Int") || strings.HasSuffix(callName(&call.Call), ".ctrlMsg.Bool"))
+					}) || strings.Contains(pathOf(cd.V), ".value") {
+						extra = true
+					}
+				}
+				if onArm && !extra {
+					locked = true
 				}
 			}
 		}
 		r.Check("C14-flush", fnName(fn), "Write takes the flush lock when the TNC acknowledges the data", c.pos(fn.Pos()), locked,
-			"flushLock.Lock on the BUFFER arm", "Write no longer takes the flush lock: Flush returns immediately after a write")
+			"flushLock.Lock on the BUFFER arm, whatever the report says", "Write does not take the flush lock on every BUFFER acknowledgement (it is missing, or depends on the value reported): a stale BUFFER 0 that crossed the data frame leaves the lock open and Flush returns while the TNC still holds unsent bytes")
+	}
+	// ---- C14-decoder: one frame that fails to decode does not end the stream
+	r.Rule("C14-decoder", 1, "the frame decoder only stops at the end of the link")
+	if fn := c.Func(pkg, "decodeTNCStream"); fn == nil {
+		r.Fail("C14-decoder", "anchor decodeTNCStream not found")
+	} else {
+		isEOFCond := func(cd Cond) bool {
+			b, ok := cd.V.(*ssa.BinOp)
+			if !ok || b.Op != token.EQL && b.Op != token.NEQ {
+				return false
+			}
+			for _, side := range []ssa.Value{b.X, b.Y} {
+				if strings.HasSuffix(pathOf(side), "io.EOF") || strings.HasSuffix(pathOf(side), "io.ErrUnexpectedEOF") || strings.HasSuffix(pathOf(side), "net.ErrClosed") {
+					return (b.Op == token.EQL) == cd.Truth
+				}
+			}
+			if call, ok := cd.V.(*ssa.Call); ok && callName(&call.Call) == "errors.Is" {
+				return cd.Truth
+			}
+			return false
+		}
+		n := 0
+		for _, l := range naturalLoops(fn) {
+			reads := false
+			for b := range l.body {
+				for _, in := range b.Instrs {
+					if call, ok := in.(*ssa.Call); ok && strings.HasSuffix(callName(&call.Call), "readFrameOfType") {
+						reads = true
+					}
+				}
+			}
+			if !reads {
+				continue
+			}
+			n++
+			bad := ""
+			for b := range l.body {
+				for _, s := range b.Succs {
+					if l.body[s] {
+						continue
+					}
+					// an edge that leaves the decode loop: only where the error is the end of the link
+					conds := append(condsAt(b), edgeCond(b, s)...)
+					ok := false
+					for _, cd := range conds {
+						if isEOFCond(cd) {
+							ok = true
+						}
+						if call, isCall := cd.V.(*ssa.Call); isCall && callName(&call.Call) == "errors.Is" && cd.Truth {
+							ok = true
+						}
+					}
+					if !ok {
+						bad = c.pos(b.Instrs[len(b.Instrs)-1].Pos())
+						if bad == "-" || bad == "" {
+							bad = c.pos(b.Instrs[0].Pos())
+						}
+					}
+				}
+			}
+			r.Check("C14-decoder", fnName(fn), "decode loop exits", c.pos(l.header.Instrs[0].Pos()), bad == "",
+				"the loop is left only when the read error is io.EOF (the link is gone)", "the decode loop can be left (near "+bad+") on an error other than the end of the link: a single frame with a CRC mismatch, an unknown prefix or a runt length silently ends PTT, data, BUFFER and DISCONNECTED delivery while the link stays up")
+		}
+		if n == 0 {
+			r.Add("C14-decoder", fnName(fn), "decode loop exits", c.pos(fn.Pos())).Bad("no loop around readFrameOfType found (unresolved)")
+		}
 	}
 	// The dispatch goroutine: the closures of runControlLoop and every function of the package they
 	// run synchronously (plain static calls) - the arms of the loop may live in helper methods.
